@@ -14,6 +14,7 @@ package main
 //   readseq  : ReadFrom with one backing slice of every length/capacity around the frame length
 //   pool     : recvPacket + makePacket through ONE allocator with pages released and reused
 //   cross    : the same body decoded by both codecs yields the same fields
+//   buffer   : one filexfer Buffer driven through sequences of its own operations (c06_buffer.go)
 // The expected value of every decode is the decode of the same bytes into a fresh zero value, and the
 // held value's own re-encoding must be the frame again.
 
@@ -30,14 +31,15 @@ import (
 
 // c06ReuseIn is the replayable input of one case.
 type c06ReuseIn struct {
-	Mode     string   `json:"mode"`
-	Kind     string   `json:"kind,omitempty"`
-	Frames   []string `json:"frames"` // complete frames (hex), decoded in this order into the same destination
-	L        int      `json:"l"`      // length of the pre-populated slice / backing slice
-	C        int      `json:"c"`      // its capacity; -1: nil
-	Scribble bool     `json:"scribble,omitempty"`
-	Raw      bool     `json:"raw,omitempty"`
-	Release  []bool   `json:"release,omitempty"`
+	Mode     string     `json:"mode"`
+	Kind     string     `json:"kind,omitempty"`
+	Frames   []string   `json:"frames"` // complete frames (hex), decoded in this order into the same destination
+	L        int        `json:"l"`      // length of the pre-populated slice / backing slice
+	C        int        `json:"c"`      // its capacity; -1: nil
+	Scribble bool       `json:"scribble,omitempty"`
+	Raw      bool       `json:"raw,omitempty"`
+	Release  []bool     `json:"release,omitempty"`
+	Ops      []c06BufOp `json:"ops,omitempty"` // mode fx-buffer (c06_buffer.go): operations on one filexfer Buffer
 }
 
 const c06Fill = 0xa7
@@ -295,6 +297,8 @@ func c06RunReuse(c *lib.Ctx, in c06ReuseIn) (ok bool) {
 		for _, f := range frames {
 			c06Cross(c, in, f, fail)
 		}
+	case "fx-buffer":
+		return c06RunBuffer(c, in)
 	default:
 		r.Fail(lib.Failure{Kind: "tie", Key: "c06/replay-input", What: "unknown mode " + in.Mode, Input: in})
 		return false
